@@ -2,7 +2,7 @@ from _engine_common import ENG
 import C03 as _C03
 PROPERTY = dict(
     level='other',
-    level_text='Reduced scope. The crash points of this property lie inside SQLite (pager, journal), behind FFI, and cannot be encoded; what IS decided, by bounded model checking of the real BuildEngineImpl::build with a recording database, is the transaction discipline on the engine side and (T3) on the database side - setRuleResult neither commits nor reopens the build transaction, every one of its writes lies inside it, and key rows are written before the result row that refers to them (rule key and every dependency) - that makes a kill leave either the pre-build or the post-build snapshot: the database transaction is opened before any task runs; every result write of the build lies between that and the commit; the current epoch is written after all results of the build on EVERY path after the tasks ran (also when the build failed or was cancelled), so no committed result can carry an epoch above the stored one; the commit is the last database call on every path.  That SQLite commits a transaction atomically with respect to process death is an axiom here, not a result.  The database-side half (setRuleResult neither commits nor reopens the transaction; key rows precede the rows that refer to them) is built over the SQLite row model (harness/C03, case 0) but does not reach a verdict and is not part of this check.',
+    level_text='Reduced scope. The crash points of this property lie inside SQLite (pager, journal), behind FFI, and cannot be encoded; what IS decided, by bounded model checking of the real BuildEngineImpl::build with a recording database, is the transaction discipline on the engine side and (T3) on the database side - setRuleResult neither commits nor reopens the build transaction, every one of its writes lies inside it, and key rows are written before the result row that refers to them (rule key and every dependency) - that makes a kill leave either the pre-build or the post-build snapshot: the database transaction is opened before any task runs; every result write of the build lies between that and the commit; the current epoch is written after all results of the build on EVERY path after the tasks ran (also when the build failed or was cancelled), so no committed result can carry an epoch above the stored one; the commit is the last database call on every path.  That SQLite commits a transaction atomically with respect to process death is an axiom here, not a result.  The database-side half (T3: setRuleResult neither commits nor reopens the transaction; key rows precede the rows that refer to them) is decided over the SQLite row model (harness/C03, case 0) for ONE result write from a freshly opened database object; a change that commits only after many writes in one build (seeds C04a/C04b: every 128th / 1024th result) is outside that bound and is not detected.',
     level_note='Trusted: as C01; axiom: SQLite transaction atomicity. Results written by executeTasks are stamped with the current epoch (C01-O6/O7), assumed in the executeTasks stub of this harness.',
     bounds='0..2 result writes per build; arbitrary starting epoch; database present or absent; every combination of start failure, cancellation, task failure and epoch-write failure',
     outside='SQLite journal and locking semantics; a kill between two SQLite system calls; SQLiteBuildDB::setRuleResult internals; continued builds after a crash',
